@@ -59,6 +59,7 @@ class Profile:
         self.temporal_delays = True  # intermediate timings / intervals
         self.timed_items = True  # timed effects and timed goals
         self.fixed_durations_only = False
+        self.dur_fluents_grow = True
         for k, v in kw.items():
             if not hasattr(self, k):
                 raise AttributeError(k)
@@ -681,7 +682,7 @@ class TGen(Gen):
             effs.append(e)
             prev.append(f)
         durfl = [f for f in self.fluents if f.get("nowrite")]
-        if durfl and self.b(0.3):
+        if durfl and self.p.dur_fluents_grow and self.b(0.3):
             # a duration-relevant fluent that only grows (durations stay positive but change along the plan)
             effs.append({"kind": "inc", "fl": ["fl", self.pick(durfl)["name"]], "val": ["i", 1], "cond": None, "forall": [], "t": ["e", 0]})
         return {"name": self.name("d"), "params": params, "dur": self.gen_duration(scope), "conds": conds, "effs": effs}
